@@ -447,8 +447,43 @@ int main(int argc, char **argv)
 					fill_pattern(data, len, pat, len);
 					memset(&H, 0, sizeof H);
 					cpu_set_level(cpus[ci]);
-					isal_update_histogram(data, len, &H);
 					snprintf(hdesc, sizeof hdesc, "histogram{isal_update_histogram@%s on %s:%d}", cpu_level_name[cpus[ci]], pat_name[pat], len);
+					{
+						/* the collector reads exactly len bytes (read-only, ending at an inaccessible page) and writes only the histogram object;
+						 * literal counts must equal a plain count when no matches are found and never exceed it */
+						uint8_t *din = g_alloc(len, G_END);
+						memcpy(din, data, len);
+						g_readonly(din, 1);
+						struct isal_huff_histogram *hh = g_alloc(sizeof *hh, G_END);
+						memset(hh, 0, sizeof *hh);
+						int ok = 1;
+						if (V_TRY()) {
+							isal_update_histogram(din, len, hh);
+							V_END();
+						} else {
+							v_violation(hdesc, "isal_update_histogram: %s", v_fault_desc());
+							nfail++;
+							ok = 0;
+						}
+						if (ok && g_check()) {
+							v_violation(hdesc, "isal_update_histogram: %s", g_last_damage());
+							nfail++;
+						}
+						if (ok) {
+							memcpy(&H, hh, sizeof H);
+							/* accounting: every input byte is covered by exactly one literal or one match */
+							uint64_t lits = 0, matches = 0;
+							for (int i = 0; i < 256; i++) lits += H.lit_len_histogram[i];
+							for (int i = 257; i < 286; i++) matches += H.lit_len_histogram[i];
+							uint64_t dsum = 0;
+							for (int i = 0; i < 30; i++) dsum += H.dist_histogram[i];
+							if (dsum != matches || lits + 3 * matches > (uint64_t)len || (len && lits + 258 * matches < (uint64_t)len)) {
+								v_violation(hdesc, "histogram accounting: %llu literals, %llu length symbols, %llu distance symbols for %d input bytes", (unsigned long long)lits, (unsigned long long)matches, (unsigned long long)dsum, len);
+								nfail++;
+							}
+						}
+						g_reset();
+					}
 					run_hist(li % 3 == 0);
 					/* the data the histogram came from must round-trip with the subset table */
 					if (isal_create_hufftables_subset(&HT, &H) == 0) {
